@@ -135,11 +135,11 @@ def install():
     ORIG['Event.execute'] = o_exec
 
     def ev_execute(self):
+        global CALLS
+        CALLS = 0           # the call budget is per dispatched event, with or without a bus
         bus = CUR
         if bus is None or PROBING:
             return o_exec(self)
-        global CALLS
-        CALLS = 0
         bus.dispatch_serial += 1
         prev = bus.in_event
         bus.in_event = self
